@@ -173,7 +173,7 @@ def _c04(ctx):
     out.append(_h2(ctx, ('TransverseMercator', 'PolarStereographic'), 4, 16))
     from .rules import offsets
     offs, noffs = offsets.rule_OFFS(ctx)
-    offs.floor('paths of UTMUPS::Forward/Reverse that project', noffs, 10)
+    offs.floor('paths of UTMUPS::Forward/Reverse that project', noffs, 6)
     out.append(offs)
     return out
 
@@ -588,12 +588,23 @@ ALIAS = {'K4': 'E1', 'P1': 'E1'}
 def run(prop, tier):
     from . import controls
     ctx = Ctx(tier=tier)
-    results = CHECKS[prop](ctx)
-    results += _econst(ctx, prop)
-    results += _symm(ctx, prop)
-    results += _clen(ctx, prop)
-    results += _mathk(ctx, prop)
-    results += _lint(ctx, prop)
+    from .core import RuleResult
+    from .build import AnalysisBroken
+
+    def guarded(name, fn):
+        # a group of rules that cannot decide must not hide what the other groups report
+        try:
+            return fn()
+        except AnalysisBroken as e:
+            r = RuleResult(name, 'rule group %s could not decide' % name)
+            r.broken.append(str(e))
+            return [r]
+    results = guarded('main', lambda: CHECKS[prop](ctx))
+    results += guarded('ECONST', lambda: _econst(ctx, prop))
+    results += guarded('SYMM', lambda: _symm(ctx, prop))
+    results += guarded('CLEN', lambda: _clen(ctx, prop))
+    results += guarded('MATH', lambda: _mathk(ctx, prop))
+    results += guarded('LINT', lambda: _lint(ctx, prop))
     rules = sorted({ALIAS.get(r.rule, r.rule) for r in results})
     _extra[prop] = {'positive_controls': controls.run_controls(rules)}
     if tier == 'thorough':
